@@ -224,6 +224,15 @@ def cases(ctx):
         if n % ctx.nshards == ctx.shard:
             yield ('src', p, CAP, False)
         n += 1
+    # every entry of the function table of the tree under test (whatever it is) applied to full and nearly full host containers: nothing reachable from
+    # names may be longer than the bound afterwards
+    from smartquery import functions as _functions
+    for name in sorted(_functions.FUNCTIONS):
+        for args in ('L, 1', 'L, 0, 1', 'L, [1]', 'L, 1, 2, 3', 'L, L', 'Dd, "zz", 1', 'Dd, "zz"', 'Dd, {"zz": 1, "zy": 2}', 'Dd, Dd', 'Dd, "zz", [1]', 'L, v => v', 'Dd, (k, v) => v'):
+            for size in (9999, 10000):
+                if n % ctx.nshards == ctx.shard:
+                    yield ('src', '%s(%s)' % (name, args), size, 'dd' if ('Dd' in args and size == 10000 and len(name) % 2 and name != '__getitem__') else False)   # (an index READ of a host defaultdict inserts by the host's own __missing__)
+                n += 1
     yield ('cgf', rnd.getrandbits(30), ctx.scale(6, 120))          # coverage-guided programs, one fuzzing process per worker
     # random sequences
     for _ in range(ctx.scale(25, 500)):
